@@ -330,6 +330,11 @@ def write_evidence(prop, tier, seed, level, coverage, wall, violations, assumpti
           "assumptions": assumptions, "wall_s": round(wall, 2), "violations": int(violations)}
     with open(os.path.join(OUTROOT, "evidence", prop + ".json"), "w") as f:
         json.dump(ev, f, indent=1)
+    if tier != "quick":
+        # evidence/<id>.json always describes the LAST run; the deepest exploration made so far is kept next to it
+        os.makedirs(os.path.join(OUTROOT, "evidence", "thorough"), exist_ok=True)
+        with open(os.path.join(OUTROOT, "evidence", "thorough", prop + ".json"), "w") as f:
+            json.dump(ev, f, indent=1)
     return ev
 
 
